@@ -18,7 +18,7 @@ Trace == ndJsonDeserialize(TraceFile)
 
 VARIABLES l, S, dig
 
-StateOf(j) == [commitment |-> j.commitment, sbal |-> j.sbal, receipt |-> j.receipt, ack |-> j.ack, rbal |-> j.rbal,
+StateOf(j) == [commitment |-> j.commitment, sbal |-> j.sbal, esc |-> j.esc, receipt |-> j.receipt, ack |-> j.ack, rbal |-> j.rbal,
                cntA |-> j.cntA, cntB |-> j.cntB]
 DigOf(j)   == [A |-> j.digA, B |-> j.digB]
 
@@ -41,7 +41,7 @@ Viol(pre, ln, post, d0, d1) ==
          IF o.called /\ o.charged > lim THEN {1} ELSE {} }
   \cup { <<"C40", "source-callback-failure-keeps-ack-or-timeout-and-app-effects">> : x \in
          IF src /\ absorbed
-            /\ ~(ok /\ ~post.commitment /\ post.sbal = E.S.sbal) THEN {1} ELSE {} }
+            /\ ~(ok /\ ~post.commitment /\ post.sbal = Effect(pre, a).sbal /\ post.esc = Effect(pre, a).esc) THEN {1} ELSE {} }
   \cup { <<"C40", "failed-callback-state-changes-discarded">> : x \in
          IF o.called /\ Fails(a.beh) /\ ~(post.cntA = pre.cntA /\ post.cntB = pre.cntB) THEN {1} ELSE {} }
   \cup { <<"C40", "undersupplied-out-of-gas-aborts-whole-transaction">> : x \in
